@@ -133,7 +133,7 @@ def _run(prop, tier, seed, replay, work, t0):
     results = common.pool_map(one, units)
     own = ctxplan.OWN[prop]
     tot = {'behaviours': 0, 'events': 0, 'nontrivial': 0, 'exhaustive_tables': 0, 'max_concepts': 0, 'max_width': 0,
-           'sessions': 0, 'session_steps': 0}
+           'sessions': 0, 'session_steps': 0, 'orphan_scenarios': 0, 'int_cell_contexts': 0, 'iterator_built_contexts': 0}
     samples = []
     foreign = 0
     for stats, mism, consumed, r, path in results:
@@ -144,6 +144,8 @@ def _run(prop, tier, seed, replay, work, t0):
             tot[k] += stats[k]
         for k in ('max_concepts', 'max_width'):
             tot[k] = max(tot[k], stats[k])
+        for k in ('orphan_scenarios', 'int_cell_contexts', 'iterator_built_contexts'):
+            tot[k] += stats.get(k, 0)
         samples.extend(stats['samples'][:1])
         states += r['distinct']
         transitions += r['generated']
@@ -191,6 +193,9 @@ def _run(prop, tier, seed, replay, work, t0):
         'max_concepts_in_a_lattice': tot['max_concepts'], 'max_objects_or_properties': tot['max_width'],
         'design_model_checking': design_info,
         'tlc_chosen_sessions_replayed': tot['sessions'], 'tlc_chosen_session_steps': tot['session_steps'],
+        'behaviours_with_orphaned_concepts': tot['orphan_scenarios'],
+        'contexts_built_from_1_0_or_count_cells': tot['int_cell_contexts'],
+        'contexts_built_from_one_shot_iterators': tot['iterator_built_contexts'],
         'foreign_clause_mismatches': foreign,
         'known_finding_behaviours': nknown,
     }
